@@ -156,6 +156,23 @@ def run(ctx):
                         check_create(ctx, client, ident, rident, "dotted", "{%s}%s.%s" % (uri, key[1], m["name"]),
                                      skeleton_expected(I, m["type"][1]), I, m["type"][1], env, reqs, metas)
                         break
+                # a longer path through complex-typed members (up to 5 parts), parts optionally prefixed
+                prng = random.Random("path:%s:%s:%s" % (ident, rident, key))
+                path, cur = [], key
+                for _ in range(prng.randint(2, 4)):
+                    nxt = [m for m, _, _ in IF.members_of(I, cur) if m["type"][0] == "c"]
+                    if not nxt:
+                        break
+                    m = prng.choice(nxt)
+                    part = m["name"]
+                    if uri in prefixes and prng.random() < 0.3:
+                        part = "%s:%s" % (prefixes[uri], part)
+                    path.append(part)
+                    cur = m["type"][1]
+                if len(path) >= 2:
+                    ctx.dist["dotted path parts=%d" % (len(path) + 1)] += 1
+                    check_create(ctx, client, ident, rident, "dotted-deep", "{%s}%s.%s" % (uri, key[1], ".".join(path)),
+                                 skeleton_expected(I, cur), I, cur, env, reqs, metas)
             for ekey, vals in sorted(I0.get("enums", {}).items()):
                 name = "{%s}%s" % (I0["namespaces"][ekey[0]]["uri"], ekey[1])
                 meta = {"iface": ident, "rendering": rident, "spelling": "enum", "name": name}
@@ -187,6 +204,7 @@ def run(ctx):
                              "%s: %s" % (type(e).__name__, e), "TypeNotFound", kind="unknown")
             if rident == "canonical":
                 filled_requests(ctx, client, ident, rident, I0)
+    flavour_probe(ctx)
     answers = ctx.driver.ask(reqs)
     for ans, (meta, got, exp) in zip(answers, metas):
         model = SM.py_canon_model(ans)
@@ -271,6 +289,61 @@ def filled_requests(ctx, client, ident, rident, I):
                 ctx.fail("a filled factory object is not sent like the equivalent dict", meta, mism[:8],
                          "the request the equivalent dict gives", kind="filled-request",
                          envelope=env.decode("utf-8", "replace")[:3000])
+
+
+FLAVOUR_SCHEMAS = (
+    '<xsd:schema xmlns:xsd="http://www.w3.org/2001/XMLSchema" xmlns:t="urn:t" xmlns:u="urn:u" targetNamespace="urn:t" '
+    'elementFormDefault="qualified"><xsd:import namespace="urn:u"/><xsd:complexType name="Money"><xsd:simpleContent>'
+    '<xsd:extension base="xsd:decimal"><xsd:attribute name="currency" type="xsd:string" default="EUR"/>'
+    '</xsd:extension></xsd:simpleContent></xsd:complexType><xsd:complexType name="Invoice"><xsd:sequence>'
+    '<xsd:element name="id" type="xsd:string"/><xsd:element name="Money"><xsd:complexType><xsd:sequence>'
+    '<xsd:element name="amount" type="xsd:decimal"/><xsd:element name="parts" type="xsd:decimal" '
+    'maxOccurs="unbounded"/></xsd:sequence></xsd:complexType></xsd:element></xsd:sequence></xsd:complexType>'
+    '<xsd:element name="Req"><xsd:complexType><xsd:sequence><xsd:element name="total" type="t:Money"/>'
+    '<xsd:element name="invoice" type="t:Invoice"/><xsd:element name="other" type="u:Money"/></xsd:sequence>'
+    '</xsd:complexType></xsd:element></xsd:schema>'
+    '<xsd:schema xmlns:xsd="http://www.w3.org/2001/XMLSchema" targetNamespace="urn:u" elementFormDefault="qualified">'
+    '<xsd:complexType name="Money"><xsd:sequence><xsd:element name="units" type="xsd:int"/><xsd:element name="cents" '
+    'type="xsd:int" minOccurs="0"/></xsd:sequence></xsd:complexType></xsd:schema>')
+
+
+def flavour_probe(ctx):
+    """Same local name, different flavour: a simpleContent type, an element-only type of another namespace and a
+    local element with an anonymous type, all called Money; every creation order must give each its own shape."""
+    w = ('<?xml version="1.0"?><wsdl:definitions targetNamespace="urn:t" xmlns:wsdl="%s" xmlns:t="urn:t" '
+         'xmlns:soap="%s"><wsdl:types>%s</wsdl:types><wsdl:message name="fIn"><wsdl:part name="parameters" '
+         'element="t:Req"/></wsdl:message><wsdl:portType name="PT"><wsdl:operation name="f"><wsdl:input '
+         'message="t:fIn"/></wsdl:operation></wsdl:portType><wsdl:binding name="B" type="t:PT"><soap:binding '
+         'style="document" transport="http://schemas.xmlsoap.org/soap/http"/><wsdl:operation name="f">'
+         '<soap:operation soapAction="f"/><wsdl:input><soap:body use="literal"/></wsdl:input></wsdl:operation>'
+         '</wsdl:binding><wsdl:service name="S"><wsdl:port name="P" binding="t:B"><soap:address '
+         'location="http://x.invalid/"/></wsdl:port></wsdl:service></wsdl:definitions>'
+         % (IF.WSDLNS, IF.SOAPNS, FLAVOUR_SCHEMAS)).encode()
+    expected = {
+        "{urn:t}Money": ["value", "_currency"],
+        "{urn:u}Money": ["units", "cents"],
+        "{urn:t}Invoice": ["id", "Money"],
+        "{urn:t}Invoice.Money": ["amount", "parts"],
+        "{urn:t}Req": ["total", "invoice", "other"],
+    }
+    import itertools
+    import suds
+    names = sorted(expected)
+    orders = list(itertools.permutations(names))
+    for order in (orders if not ctx.quick else orders[::7]):
+        client = wsdlkit.client(w, nosend=True)
+        for name in order:
+            meta = {"stream": "same-name-flavours", "order": list(order), "name": name}
+            ctx.case(common.canon(meta), True)
+            ctx.dist["same-name-flavours"] += 1
+            try:
+                got = [k for k, _ in suds.sudsobject.items(client.factory.create(name))]
+            except Exception as e:
+                got = "%s: %s" % (type(e).__name__, e)
+            if got != expected[name]:
+                ctx.fail("same-named schema components of different kinds are not built each as its own shape",
+                         meta, got, expected[name], kind="flavours")
+                return
 
 
 def widen(ctx):
